@@ -6,8 +6,8 @@ from props.common import TRUSTED_BASE, ASSUMPTIONS
 
 ID = "C15"
 FORMAT_GROUP = "syntax"
-LEAN_MODULES = ["LexVerif.Props.C15"]
-GEN = []
+LEAN_MODULES = ["LexVerif.Props.C15", "LexVerif.Props.Literals.ParseFloatParse", "LexVerif.Props.Literals.ParseFloatShared", "LexVerif.Props.Literals.ParseFloatOptions", "LexVerif.Props.Literals.WriteFloatWrite", "LexVerif.Props.Literals.WriteFloatOptions", "LexVerif.Props.Literals.UtilNum", "LexVerif.Props.Literals.UtilSkip"]
+GEN = ["literals"]
 TRUSTED = TRUSTED_BASE + [
     "the special-string grammar for flagged formats (no_special, case_sensitive_special, special_digit_separator) is specified by Spec.Grammar; for plain formats by Spec.StdFloat.parseSpecial",
 ]
